@@ -115,10 +115,26 @@ class Hist:
             n = r.choice([100, 300, 1000])
             F.append([S("define"), S(b1), [S("make-vector"), n, 0]]); F.append([S("define"), S(b2), S(b1)])
             self.big = (b1, b2, n)
+        self.cyc = None
+        if r.random() < 0.2:
+            # a vector stored into itself (through an alias): it is never returned as a whole, only read through eq? and element reads
+            c1, c2 = self.name("cyc"), self.name("cyc")
+            F.append([S("define"), S(c1), [S("vector"), self.uniq(), self.uniq(), 0]]); F.append([S("define"), S(c2), S(c1)])
+            F.append([S("begin"), [S("vector-set!"), S(c1), 2, S(c2)], q(S("stored"))])
+            self.cyc = (c1, c2)
         F.append(self.probe())
         while len(F) < steps:
             c = r.random()
             wrote = True
+            if self.cyc and r.random() < 0.08:
+                c1, c2 = self.cyc
+                inner = [S("vector-ref"), S(r.choice([c1, c2])), 2]
+                if r.random() < 0.5:
+                    inner = [S("vector-ref"), inner, 2]
+                F.append([S("begin"), [S("vector-set!"), inner, r.randint(0, 1), self.uniq()], q(S("written"))])
+                F.append([S("list"), [S("eq?"), [S("vector-ref"), S(c1), 2], S(c2)], [S("vector-ref"), S(c1), 0], [S("vector-ref"), S(c2), 1],
+                          [S("vector-ref"), [S("vector-ref"), [S("vector-ref"), S(c2), 2], 2], r.randint(0, 1)], [S("eq?"), [S("vector-ref"), [S("vector-ref"), S(c1), 2], 2], S(c1)]])
+                continue
             if self.big and r.random() < 0.1:
                 b1, b2, n = self.big
                 i = r.choice([0, n - 1, n // 2, r.randrange(n)])
